@@ -221,6 +221,32 @@ def naive_growth(fns, start, max_states, max_layers):
     return sizes, False
 
 
+def numpy_perm_growth(perms, start, max_states, max_layers):
+    """Vectorised BFS for permutation graphs (oracle only): layer sizes while the number of seen states stays within max_states."""
+    import numpy as np
+    P_ = np.array(perms, dtype=np.int64)
+    dt = np.int8 if max(start) < 127 else np.int16
+    cur = np.array([start], dtype=dt)
+
+    def keys(a):
+        return np.ascontiguousarray(a).view(np.dtype((np.void, a.dtype.itemsize * a.shape[1]))).reshape(-1)
+    seen = keys(cur)
+    sizes = [1]
+    while len(sizes) < max_layers + 1:
+        nxt = np.concatenate([cur[:, p] for p in P_], axis=0)
+        k = keys(nxt)
+        uk, idx = np.unique(k, return_index=True)
+        fresh = ~np.isin(uk, seen)
+        if not fresh.any():
+            return sizes, True
+        cur = nxt[idx[fresh]]
+        seen = np.concatenate([seen, uk[fresh]])
+        sizes.append(int(fresh.sum()))
+        if len(seen) > max_states:
+            return sizes, False
+    return sizes, False
+
+
 def load_rows(ctx):
     """Rows as the loader returns them, cross-checked with a raw parse of the files."""
     from cayleypy import load_dataset
@@ -274,6 +300,7 @@ def run(ctx):
     prefix_cap = ctx.budget(3000, 120000)
     naive_cap = ctx.budget(20000, 200000)
     cases, metas, costs = [], [], []
+    perms_of = {}
     unknown = []
     for ds, key, row in rows:
         targets = row_targets(ds, key)
@@ -316,6 +343,7 @@ def run(ctx):
                 sub = row[: k + 1]
                 ctx.count("prefix_rows")
                 ctx.count("prefix_layers_checked", len(sub))
+            perms_of[len(cases)] = [[int(v) for v in p] for p in d.generators_permutations] if d.is_permutation_group() else None
             cases.append(f"{{| gc_gens := {glit}; gc_start := {slit}; gc_exact := {'true' if exact else 'false'}; gc_row := {czl(sub)} |}}")
             metas.append((case, fns, start, sub, exact, row))
             costs.append(sum(sub) * ngens * (slen if d.is_permutation_group() else slen * 3))
@@ -400,6 +428,25 @@ def run(ctx):
         if not good:
             ctx.violation("property_fails", f"{case['dataset']}[{case['key']}] stores {sub[:12]}; a naive BFS of {case['definition']} gives {sizes[:12]}", dict(case, claim="growth"), True)
     ctx.cov["search"]["rows_rechecked_by_naive_bfs"] = n_naive
+    # oracle-only LONG prefixes for the rows the verified BFS decided only by a short prefix (quick tier): a vectorised BFS follows the stored row while the
+    # orbit explored stays below 60 000 states (a wrong puzzle definition or generator family often agrees with the row for the first six or seven layers)
+    import numpy as _np
+    n_long = 0
+    for i, (case, fns, start, sub, exact, row) in enumerate(metas):
+        if exact or i in failing or perms_of.get(i) is None or len(sub) >= len(row):
+            continue
+        k, cum = len(sub) - 1, sum(sub)
+        while k + 1 < len(row) and cum + row[k + 1] <= ctx.budget(60000, 250000):
+            k += 1
+            cum += row[k]
+        if k + 1 <= len(sub):
+            continue
+        sizes, complete = numpy_perm_growth(perms_of[i], list(start), cum, k + 1)
+        n_long += 1
+        if sizes[: k + 1] != row[: k + 1]:
+            ctx.violation("property_fails", f"{case['dataset']}[{case['key']}] stores {row[: k + 1]}; the graph {case['definition']} has {sizes[: k + 1]} "
+                          f"(layers beyond the verified prefix, oracle BFS)", dict(case, claim="growth_long_prefix"), True)
+    ctx.cov["search"]["rows_followed_by_long_oracle_prefix"] = n_long
     ctx.cov["timing_s"]["total"] = round(_t.time() - ctx.t0, 1)
     ctx.cov["distribution"]["rows"] = len(rows)
     ctx.cov["distribution"]["datasets"] = len({r[0] for r in rows})
